@@ -9,7 +9,7 @@ import time
 
 from . import overlay
 
-MEM_LIMIT_GB = int(os.environ.get("VERIF_MEM_GB", "14"))
+MEM_LIMIT_GB = int(os.environ.get("VERIF_MEM_GB", "18"))
 
 CRATE_PKG = {"core": "okane-core", "cli": "okane", "golden": "okane-golden"}
 
@@ -26,9 +26,9 @@ def module_path(harness_file):
     return "::".join(rel + ["verif_kani"])
 
 
-def _limits():
+def _limits(gb=None):
     os.setsid()
-    lim = MEM_LIMIT_GB * (1 << 30)
+    lim = (gb or MEM_LIMIT_GB) * (1 << 30)
     resource.setrlimit(resource.RLIMIT_AS, (lim, lim))
 
 
@@ -39,8 +39,11 @@ def _kill_group(p):
         pass
 
 
-def cargo_env(target_dir):
+def cargo_env(target_dir, h=None):
     env = dict(os.environ)
+    env.pop("VERIF_MAP_CAP", None)
+    if h and h.get("map_cap"):
+        env["VERIF_MAP_CAP"] = str(h["map_cap"])
     env["CARGO_NET_OFFLINE"] = "true"
     env["CARGO_TARGET_DIR"] = target_dir
     env.pop("RUSTFLAGS", None)
@@ -75,10 +78,26 @@ def run_harness(scratch, h, log_dir, timeout_s, extra_args=(), tag=""):
     cmd += list(extra_args)
     log = os.path.join(log_dir, h["name"] + tag + ".log")
     t0 = time.time()
+    if h.get("recursion"):
+        # Per-function recursion bounds (CBMC --unwindset on the function identifiers). The identifiers are
+        # read from the goto binary of a codegen-only pre-pass; the recursion unwinding assertions stay on,
+        # so a recursion that really goes deeper than the bound is reported, not truncated.
+        try:
+            uws = recursion_unwindset(scratch, cmd, tdir, h["recursion"], log, h)
+        except Exception as e:  # noqa
+            uws = None
+            with open(log, "a") as lf:
+                lf.write("recursion pre-pass failed: %s\n" % e)
+        if uws:
+            cmd = cmd[:2] + ["-Z", "unstable-options"] + cmd[2:] + ["--cbmc-args", "--unwindset", uws]
+        else:
+            return dict(parse_kani_output(""), harness=h["name"], full_name=full, wall_s=round(time.time() - t0, 1),
+                        timed_out=False, exit_code=None, log=log, peak_rss_mb=0, cmd=" ".join(cmd),
+                        compile_or_cbmc_error=True)
     peak = [0]
-    with open(log, "w") as lf:
+    with open(log, "a") as lf:
         p = subprocess.Popen(cmd, cwd=scratch, stdout=lf, stderr=subprocess.STDOUT,
-                             env=cargo_env(tdir), preexec_fn=_limits)
+                             env=cargo_env(tdir, h), preexec_fn=lambda: _limits(h.get("mem_gb")))
         timed_out = False
         while True:
             try:
@@ -104,6 +123,39 @@ def run_harness(scratch, h, log_dir, timeout_s, extra_args=(), tag=""):
     return res
 
 
+def recursion_unwindset(scratch, cmd, tdir, limits, log, h=None):
+    """limits: {substring of the pretty function name: bound}. Returns the --unwindset argument."""
+    pre = [c for c in cmd if c not in ("--no-unwinding-checks",)] + ["--only-codegen"]
+    with open(log, "w") as lf:
+        r = subprocess.run(pre, cwd=scratch, stdout=lf, stderr=subprocess.STDOUT, env=cargo_env(tdir, h),
+                           preexec_fn=_limits, timeout=900)
+    if r.returncode != 0:
+        raise RuntimeError("codegen-only pre-pass failed")
+    outs = []
+    for root, _, files in os.walk(tdir):
+        for f in files:
+            if f.endswith(".out") and not f.endswith(".symtab.out"):
+                outs.append(os.path.join(root, f))
+    if len(outs) != 1:
+        raise RuntimeError("expected one goto binary, found %d" % len(outs))
+    lst = subprocess.run(["goto-instrument", "--list-goto-functions", outs[0]], capture_output=True, text=True,
+                         timeout=300).stdout
+    entries = []
+    for line in lst.splitlines():
+        m = re.match(r"^(.*) /\* (\S+) \*/\s*$", line)
+        if not m:
+            continue
+        pretty, mangled = m.group(1), m.group(2)
+        for sub, bound in limits.items():
+            if sub in pretty:
+                entries.append("%s:%d" % (mangled, bound))
+    if not entries:
+        raise RuntimeError("no function matched the recursion limits %r" % (limits,))
+    with open(log, "a") as lf:
+        lf.write("recursion bounds: %s\n" % ", ".join(entries))
+    return ",".join(sorted(set(entries)))
+
+
 def _group_rss_kb(pgid):
     try:
         out = subprocess.run(["ps", "-eo", "pgid,rss"], capture_output=True, text=True).stdout
@@ -117,7 +169,7 @@ def _group_rss_kb(pgid):
         return 0
 
 
-_CHECK_RE = re.compile(r"^Check (\d+): (\S+)\s*$")
+_CHECK_RE = re.compile(r"^Check (\d+): (.*?)\s*$")
 
 
 def parse_kani_output(out):
